@@ -162,6 +162,8 @@ def run(prog: Program, res: Result, tier: str) -> None:
     check_symmetry(prog, res)
     check_planar_equivariance(prog, res)
     check_stero_from_geometry(prog, res)
+    check_ring_orders(prog, res)
+    check_stateless(prog, res)
     res.trusted += ["transfer functions of sa/geo.py for the numpy idioms "
                     "used (row re-indexing, differences, cross, dot / einsum "
                     "/ sum of products over the last axis, norm, abs, sign)",
@@ -314,6 +316,90 @@ def check_planar_equivariance(prog: Program, res: Result) -> None:
     else:
         res.unrecognised("R-EQUIVARIANT", inst, fi.loc(dots[0]),
                          f"vector index sets {pairs}")
+
+
+def check_ring_orders(prog: Program, res: Result) -> None:
+    res.rule("T-RING-ORDERS", "the candidate ring orders tried by "
+             "_square_planar_from_coords contain every one of the three ways "
+             "to pair four ligands into trans pairs ({1,3|2,4}, {1,2|3,4}, "
+             "{1,4|2,3}); otherwise the true arrangement is never tried for "
+             "some numberings of the neighbours and cis / trans swap")
+    fi = prog.fn(f"{XYZ}:_square_planar_from_coords")
+    tables = []
+    for n in ast.walk(fi.node):
+        if isinstance(n, (ast.Tuple, ast.List)) and len(n.elts) >= 2 and all(
+                isinstance(e, (ast.Tuple, ast.List)) and len(e.elts) == 4
+                for e in n.elts):
+            try:
+                rows = [tuple(ast.literal_eval(e)) for e in n.elts]
+            except Exception:
+                continue
+            if all(sorted(r) == [1, 2, 3, 4] for r in rows):
+                tables.append((n, rows))
+    inst = "_square_planar_from_coords: ring orders cover the 3 trans pairings"
+    if len(tables) != 1:
+        res.unrecognised("T-RING-ORDERS", inst, fi.loc(),
+                         f"{len(tables)} literal tables of ring orders over "
+                         "the neighbour positions 1..4")
+        return
+    node, rows = tables[0]
+    # ring order (a, b, c, d): a-c and b-d are trans
+    pairings = {frozenset((frozenset((r[0], r[2])), frozenset((r[1], r[3]))))
+                for r in rows}
+    want = {frozenset((frozenset((1, 3)), frozenset((2, 4)))),
+            frozenset((frozenset((1, 2)), frozenset((3, 4)))),
+            frozenset((frozenset((1, 4)), frozenset((2, 3))))}
+    if pairings == want:
+        res.ok("T-RING-ORDERS", inst, fi.loc(node), f"{len(rows)} orders")
+    else:
+        missing = [sorted(sorted(p) for p in m) for m in want - pairings]
+        res.bad("T-RING-ORDERS", f"ring orders {rows}", fi.loc(node),
+                f"{inst}: the table {rows} never tries the trans pairing(s) "
+                f"{missing}: a square-planar centre whose neighbours are "
+                "numbered that way is perceived as the wrong isomer",
+                instance=inst)
+
+
+def check_stateless(prog: Program, res: Result) -> None:
+    res.rule("R-PERCEPTION-STATELESS", "perception keeps nothing between "
+             "calls: no function of xyz2graph.py / coords.py stores an "
+             "attribute on one of its arguments (a Geometry is mutable: a "
+             "cached connectivity would survive a change of its coordinates) "
+             "and none is memoised")
+    n = 0
+    for fi in prog.functions.values():
+        if fi.module.name not in (XYZ, COORDS):
+            continue
+        n += 1
+        params = set(fi.params())
+        me = fi.params()[0] if fi.cls is not None and fi.params() and \
+            not fi.is_staticmethod() else None
+        stores = []
+        for x in ast.walk(fi.node):
+            if isinstance(x, ast.Attribute) and isinstance(
+                    x.ctx, (ast.Store, ast.Del)) and isinstance(
+                    x.value, ast.Name) and x.value.id in params and \
+                    x.value.id != me:
+                stores.append(x)
+            elif isinstance(x, ast.Call) and call_name(x) in (
+                    "setattr", "object.__setattr__") and x.args and norm(
+                    x.args[0]) in params - {me}:
+                stores.append(x)
+        cached = [d for d in fi.node.decorator_list if re.search(
+            r"cache|lru", norm(d))]
+        inst = f"{fi.short} keeps no state on its arguments"
+        if stores or cached:
+            site = (stores or cached)[0]
+            res.bad("R-PERCEPTION-STATELESS", f"{fi.short}: {norm(site, 60)}",
+                    fi.loc(site), f"{inst}: `{norm(site, 80)}` "
+                    + ("memoises the function" if cached and not stores else
+                       "stores on an argument") + "; the next call may "
+                    "answer from stale data although the coordinates changed",
+                    instance=inst)
+        else:
+            res.ok("R-PERCEPTION-STATELESS", inst, fi.loc())
+    res.need("R-PERCEPTION-STATELESS", n, 15, "functions of xyz2graph / "
+             "coords")
 
 
 def check_stero_from_geometry(prog: Program, res: Result) -> None:
